@@ -127,6 +127,10 @@ class TheJoker:
         joker_helper = self._make_joker_helper(data)  # also validates data
 
         if in_memory:
+            if isinstance(prior_samples, str):
+                # load all prior samples from the file
+                prior_samples = JokerSamples.read(prior_samples)
+
             if isinstance(prior_samples, JokerSamples):
                 prior_samples, _ = prior_samples.pack(
                     units=joker_helper.internal_units, names=joker_helper.packed_order
@@ -220,6 +224,10 @@ class TheJoker:
             )
 
         if in_memory:
+            if isinstance(prior_samples, str):
+                # load all prior samples from the file
+                prior_samples = JokerSamples.read(prior_samples)
+
             if isinstance(prior_samples, JokerSamples):
                 ln_prior = None
                 if return_logprobs:
@@ -333,6 +341,10 @@ class TheJoker:
         joker_helper = self._make_joker_helper(data)  # also validates data
 
         if in_memory:
+            if isinstance(prior_samples, str):
+                # load all prior samples from the file
+                prior_samples = JokerSamples.read(prior_samples)
+
             if isinstance(prior_samples, JokerSamples):
                 ln_prior = None
                 if return_logprobs:
